@@ -30,11 +30,16 @@ def returns_true_for(ctx, m, op):
                 return [s.value]
             if isinstance(s, ast.If):
                 t = s.test
+                neg = False
+                while isinstance(t, ast.UnaryOp) and isinstance(t.op, ast.Not):
+                    t, neg = t.operand, not neg
                 val = None
                 if isinstance(t, ast.Compare) and len(t.ops) == 1 and isinstance(t.left, ast.Name) and t.left.id == m.params[1] \
                         and isinstance(t.comparators[0], ast.Constant):
                     eq = t.comparators[0].value == op
                     val = eq if isinstance(t.ops[0], ast.Eq) else (not eq if isinstance(t.ops[0], ast.NotEq) else None)
+                    if val is not None and neg:
+                        val = not val
                 if val is True:
                     r = ev(s.body)
                 elif val is False:
